@@ -54,6 +54,7 @@ type FuncContract struct {
 	SameAs   string // paramfunc: the function value is the function with this key; its contract (minus preconditions over its own free variables) is used
 	Grows    map[string]bool // rely locations that only grow (boolean ghost sets): old members stay members
 	Invokes  string // name of a func-typed parameter this function calls exactly once (its contract is applied at the call)
+	ChanInvs []*Clause // channel invariants: `chan <local>: invariant <expr over elem>` (CallName = the channel variable)
 }
 
 type GhostFn struct {
@@ -101,6 +102,7 @@ func newContracts() *Contracts {
 var reHeader = regexp.MustCompile(`^(func|extern|iface|field|paramfunc)\s+(.+?)\(([^)]*)\)\s*(?:\(([^)]*)\))?\s*$`)
 var reTag = regexp.MustCompile(`^\[([A-Za-z0-9_,]*)(?::([^\]]+))?\]\s*`)
 var reLoop = regexp.MustCompile(`^loop\s+(\d+)\s*:\s*invariant\s+(.*)$`)
+var reChan = regexp.MustCompile(`^chan\s+([A-Za-z0-9_]+)\s*:\s*invariant\s+(.*)$`)
 var reCall = regexp.MustCompile(`^call\s+([A-Za-z0-9_.$]+)#(\d+)\s*:\s*(assert|after)\s+(.*)$`)
 
 func splitNames(s string) []string {
@@ -331,6 +333,28 @@ func (cs *Contracts) parseLine(cur **FuncContract, t, path string, ln int, pkgPa
 			return errf("%v", err)
 		}
 		(*cur).Loops[k] = append((*cur).Loops[k], &Clause{Kind: "invariant", Prop: tagProp, Label: tagLabel, Src: rest, E: e, Loop: k, File: path, Line: ln})
+	case "chan":
+		// chan <local>: invariant <expr over elem>: every value sent on the channel held by that local (by this function
+		// and by the closures that capture it) satisfies the invariant; every value received from it may assume it
+		if *cur == nil {
+			return errf("chan outside function contract")
+		}
+		m := reChan.FindStringSubmatch(t)
+		if m == nil {
+			return errf("bad chan clause")
+		}
+		rest = m[2]
+		takeTag()
+		e, err := parseExpr(rest)
+		if err != nil {
+			return errf("%v", err)
+		}
+		(*cur).ChanInvs = append((*cur).ChanInvs, &Clause{Kind: "chaninv", Prop: tagProp, Label: tagLabel, Src: rest, E: e, CallName: m[1], File: path, Line: ln})
+		if tagProp != "" {
+			for _, p := range strings.Split(tagProp, ",") {
+				(*cur).Props[p] = true
+			}
+		}
 	case "call":
 		if *cur == nil {
 			return errf("call outside function contract")
